@@ -805,7 +805,7 @@ func (s *Sim) Apply(a Action) {
 		name := TrialName(a.Key)
 		t := &trialsv1beta1.Trial{}
 		if err := s.store.Get(ctx, types.NamespacedName{Name: name, Namespace: NS}, t); err == nil {
-			if s.Cfg.ES && t.IsCreated() && !t.IsCompleted() && t.DeletionTimestamp.IsZero() {
+			if s.Cfg.ES && t.IsCreated() && !t.IsCompleted() && t.DeletionTimestamp.IsZero() && s.getJob(name) != nil {
 				if a.V != nil {
 					if _, ok := s.db[name]; !ok {
 						s.setDB(name, a.V)
